@@ -67,14 +67,23 @@ extern "C" void harness_db(void) {
   m_trackOps = true;
   bool ok = w->setRuleResult(k0, rule, in, &err);
   m_trackOps = false;
+#if defined(VF_PROBE) && VF_PROBE == 1
+  VF_WITNESS(); return;
+#endif
   VF_ASSERT(ok && err.empty(), "the result is written");
   VF_ASSERT(m_txnControlInOps == 0, "writing a result neither commits nor reopens the build transaction");
   VF_ASSERT(m_danglingRefs == 0, "key rows exist before the result row that refers to them (rule key and every dependency)");
   w->buildComplete();
   VF_ASSERT(m_mutationsOutsideTxn == 0 && !m_inTxn && m_ends == 1, "every write of the build happened inside its one transaction, which is then closed");
   SQLiteBuildDB* r = newDB(true, client);
+#if defined(VF_PROBE) && VF_PROBE == 3
+  VF_WITNESS(); return;
+#endif
   Result out; out.dependencies.keys.reserve(3); out.dependencies.flags.reserve(3); out.value.reserve(4);
   bool found = r->lookupRuleResult(k0, rule.key, &out, &err);
+#if defined(VF_PROBE) && VF_PROBE == 2
+  VF_WITNESS(); return;
+#endif
   VF_ASSERT(found && err.empty(), "a later process finds the stored result");
   VF_ASSERT(out.builtAt == in.builtAt && out.computedAt == in.computedAt && out.signature.value == in.signature.value, "epochs and signature are read back identically");
   VF_ASSERT(dbits(out.start) == sb && dbits(out.end) == eb, "timestamps are read back bit for bit");
